@@ -126,6 +126,9 @@ type Client struct {
 	log                  util.Logger
 	// for testing
 	mockupDialFunc func() (net.Conn, error)
+	// Transactions initiated by the gateway. Their MsgIDs are chosen by the
+	// gateway independently of the MsgIDs of our transactions.
+	gwTransactions *transactions.TransactionStore
 }
 
 // NewClient sets up a new client according to the provided configuration.
@@ -136,6 +139,7 @@ func NewClient(log util.Logger, cfg *ClientConfig) *Client {
 		registeredTopics: make(map[string]uint16),
 		messageHandlers:  &messageHandlers{},
 		transactions:     transactions.NewTransactionStore(),
+		gwTransactions:   transactions.NewTransactionStore(),
 		state:            &state,
 		stateChangeCh:    make(chan util.ClientState, 1),
 		log:              log,
